@@ -12,7 +12,8 @@ DECIDES = ('(a) USBDevice: the address and configuration registers have exactly 
            'handler multiplexer and the control endpoint unmodified; (c) the SET_ADDRESS / SET_CONFIGURATION states answer the '
            'status stage with a ZLP only under status_requested and commit at most once (the commit edge returns to idle); '
            '(d) ACK attribution: a commit triggered by handshakes_in.ack (a strobe broadcast for every ACK on the bus) must '
-           'also require that this request\'s own status-stage packet was sent. ')
+           'also require that this request\'s own status-stage packet was sent; whatever condition makes a commit state STALL its '
+           'status stage also keeps its commit strobe low. ')
 NOT_DECIDED = 'the interleaved bus histories themselves.'
 ACK = 'self.interface.handshakes_in.ack'
 
